@@ -6,7 +6,7 @@ import concurrent.futures as cf, json, os, re, shutil, subprocess, sys, tempfile
 ROOT = os.path.dirname(os.path.dirname(os.path.abspath(__file__)))
 mode = sys.argv[1] if len(sys.argv) > 1 else "own"
 jobs = int(sys.argv[2]) if len(sys.argv) > 2 else 4
-seeds = sys.argv[3:] or sorted(d for d in os.listdir(os.path.join(ROOT, "seeded")) if os.path.isdir(os.path.join(ROOT, "seeded", d)))
+seeds = sys.argv[3:] or sorted(d for d in os.listdir(os.path.join(ROOT, "seeded")) if os.path.exists(os.path.join(ROOT, "seeded", d, "patch.diff")))
 checks = sorted(f[:-3] for f in os.listdir(os.path.join(ROOT, "props")) if re.fullmatch(r"C\d\d\.py", f))
 
 
